@@ -97,7 +97,9 @@ mod __verif_kani {
         }
     }
 
-    //@ kind=B props=C21 bound=text_len=4_over_{delimiter,quote,newline,a},all_distinct_configs fn=DsvRows::next,DsvRow::{fields,get},DsvFields::next,DsvCursor::{next_field,next_row,goto_row,current_field,at_newline},Dsv::row : every text of length 4 over the special bytes and 'a', every configuration with distinct special bytes, EXCEPT texts ending with an unquoted delimiter (known finding F1): iterating rows and fields yields exactly the quote-aware split; DsvRow::get(i) and row(n) agree with iteration and are None out of range
+    fn default_cfg() -> DsvConfig { DsvConfig::default() }
+
+    //@ kind=B props=C21 tier=thorough bound=text_len=4_over_{delimiter,quote,newline,a},all_distinct_configs fn=DsvRows::next,DsvRow::{fields,get},DsvFields::next,DsvCursor::{next_field,next_row,goto_row,current_field,at_newline},Dsv::row : every text of length 4 over the special bytes and 'a', every configuration with distinct special bytes, EXCEPT texts ending with an unquoted delimiter (known finding F1): iterating rows and fields yields exactly the quote-aware split; DsvRow::get(i) and row(n) agree with iteration and are None out of range
     #[kani::proof]
     #[kani::unwind(8)]
     pub fn c21_rows_fields_len4() {
@@ -107,13 +109,22 @@ mod __verif_kani {
         check_iteration::<4>(&text, &c);
     }
 
-    //@ kind=B props=C21 known=F1 bound=text_len=3 fn=DsvFields::next,DsvCursor::next_field : property as worded for texts that END WITH AN UNQUOTED DELIMITER (e.g. "a,"): the trailing empty field must be returned
+    //@ kind=B props=C21 tier=thorough bound=text_len=3_over_{delimiter,quote,newline,a},default_config fn=DsvRows::next,DsvRow::{fields,get},DsvFields::next,DsvCursor::{next_field,next_row,goto_row,current_field,at_newline},DsvRef::row : every 3-byte text over the four symbol classes (default config), except those ending in an unquoted delimiter (F1): iteration and row/column access return exactly the quote-aware split
     #[kani::proof]
-    #[kani::unwind(8)]
-    pub fn c21_trailing_empty_field_without_final_newline() {
-        let c = any_cfg();
+    #[kani::unwind(7)]
+    pub fn c21_rows_fields_len3_default() {
+        let c = default_cfg();
         let text: [u8; 3] = any_text::<3>(&c);
-        kani::assume(ends_with_unquoted_delimiter(&text, &c));
+        kani::assume(!ends_with_unquoted_delimiter(&text, &c));
         check_iteration::<3>(&text, &c);
+    }
+
+    //@ kind=B props=C21 known=F1 bound=the_text_"a," fn=DsvFields::next,DsvCursor::next_field : property as worded for the text "a," (ends with an unquoted delimiter, no final record separator): the trailing empty field must be returned
+    #[kani::proof]
+    #[kani::unwind(6)]
+    pub fn c21_trailing_empty_field_without_final_newline() {
+        let c = default_cfg();
+        let text: [u8; 2] = [b'a', c.delimiter];
+        check_iteration::<2>(&text, &c);
     }
 }
